@@ -8,6 +8,31 @@ type PropertyDef struct {
 
 // Properties is the registry of E2 checks.
 var Properties = map[string]PropertyDef{
+	"C10": {Cases: C10Cases, Config: func(tier string) Config {
+		c := Config{
+			Functions: []string{"session.NewContext", "session.Context.SubContext/Seeds/Transcript/SessionID/Clone", "przs.SampleZeroShare", "additive.NewShare", "hagrid transcript (real cSHAKE, run natively)"},
+			Bounds:  map[string]any{"quorum": "2..4 parties (quick) / 2..5 (thorough) × 3 ID pools, every sub-quorum of size ≥ 2", "pairwise PRG outputs": "symbolic (one variable per pairwise stream position)", "seeds": "concrete"},
+			Assumes: []string{"a pairwise PRG stream is a deterministic function of its seed: both ends that read the same bytes obtain the same symbolic element (random-function model of the PRG)", "session ids / transcript states are compared as real hash outputs (class B: no solver claim beyond determinism)"},
+			Outside: []string{"the interactive setup rounds (commit/open of seed contributions): hash level", "the runner", "distinctness of seeds across sessions (hash)"},
+		}
+		if tier == "thorough" {
+			c.Moduli = []string{"secp256k1", "ed25519"}
+		}
+		return c
+	}},
+	"C15": {Cases: C15Cases, Config: func(tier string) Config {
+		c := Config{
+			Functions: []string{"schnorrlike/schnorr.NewScheme/Signer/Verifier", "schnorrlike.SignerTrait.Sign", "schnorrlike.VerifierTrait.Verify", "schnorr.Variant.ComputeNonceCommitment/ComputeChallenge/ComputeResponse", "schnorrlike.ComputeGenericNonceCommitment/ComputeGenericResponse/MakeGenericChallenge", "ecdsa.NewSignature"},
+			Bounds:  map[string]any{"private key, nonce, tampering offset": "symbolic over GF(q)", "configurations": "response sign ±, byte order, sha256/sha512, 3 messages"},
+			Assumes: []string{"challenge = real hash of interned handles (random-oracle idealisation): equal hashed values ⇔ equal handles", "fresh nonces are non-zero (probability 1/q excluded)"},
+			Outside: []string{"ECDSA verification/recovery/normalisation (crypto/ecdsa, integer comparison of scalars)", "BIP-340, Mina (parity of an affine coordinate)", "BLS (pairing)", "published vectors"},
+		}
+		if tier == "thorough" {
+			c.Moduli = []string{"secp256k1", "ed25519", "pallas"}
+			c.Cross = "cvc5"
+		}
+		return c
+	}},
 	"C16": {Cases: C16Cases, Config: func(tier string) Config {
 		c := Config{
 			Functions: []string{"elgamal.NewSecretKey/NewPublicKey", "elgamal.PublicKey.EncryptWithNonce/Representative/IdentityNoise/ReRandomise/Shift/CiphertextOp/CiphertextOpInv/CiphertextScalarOp/PlaintextOp/NonceOp", "elgamal.SecretKey.Decrypt/EncryptWithNonce/IdentityNoise/ReRandomise", "encryption/internal/gift.Encrypt/ReRandomise/Shift", "constructions.FiniteDirectPowerModule"},
